@@ -15,15 +15,17 @@ Inductive stmt :=
 | SIns (r : row) (n : N)                               (* INSERT n copies of r *)
 | SDel (ci : nat) (v : cell)                           (* DELETE WHERE c_ci <=> v *)
 | SUpd (ci : nat) (v : cell) (cj : nat) (w : cell)     (* UPDATE SET c_cj = w WHERE c_ci <=> v *)
-| SDelL (ci : nat) (v : cell) (n : N).                 (* DELETE WHERE c_ci <=> v LIMIT n: any n matching copies *)
+| SDelL (ci : nat) (v : cell) (n : N)                  (* DELETE WHERE c_ci <=> v LIMIT n: any n matching copies *)
+| SUpdL (ci : nat) (v : cell) (cj : nat) (w : cell) (n : N).   (* UPDATE SET c_cj = w WHERE c_ci <=> v LIMIT n *)
 
 Definition mstate := list (row * N).                    (* SELECT cols, COUNT( * ) GROUP BY cols *)
 
-Record sobs := { so_state : mstate; so_count : N; so_ix : N }.
+Record sobs := { so_state : mstate; so_count : N; so_ix : list N }.   (* so_ix: per probe value, COUNT( * ) WHERE c0 = v / IS NULL *)
 Record mobs := { mo_class : N; mo_state : mstate; mo_conf : list (row * (N * N * N)) }.  (* row, base/our/their cardinality *)
 
 Record input := {
-  i_steps : list (stmt * list op * cell);   (* statement, the writer calls it expands to, probe value for the index lookup on column 0 *)
+  i_steps : list (stmt * list op);          (* statement, the writer calls it expands to *)
+  i_probes : list cell;                     (* values looked up through the index on column 0 after every statement (NULL included) *)
   i_b : mstate; i_l : mstate; i_r : mstate }.
 Record obs := { o_steps : list sobs; o_lr : mobs; o_rl : mobs }.
 Definition case := (input * obs)%type.
@@ -39,13 +41,14 @@ Definition msame (a b : mstate) : bool :=
 Definition state_of (s : store) : mstate := map (fun e => (snd (snd e), fst (snd e))) s.
 Definition store_of (m : mstate) : store := map (fun e => (enc (fst e), (snd e, fst e))) m.
 
-Fixpoint model_steps (s : store) (steps : list (stmt * list op * cell)) : list sobs :=
+Fixpoint model_steps (probes : list cell) (st : tstate) (steps : list (stmt * list op)) : list sobs :=
   match steps with
   | [] => []
-  | (_, ops, p) :: rest =>
-      let s' := run enc ops s in
-      {| so_state := state_of s'; so_count := N.of_nat (length (scan s')); so_ix := mprobe p (state_of s') |}
-      :: model_steps s' rest
+  | (_, ops) :: rest =>
+      let st' := trun enc ops st in
+      {| so_state := state_of (fst st'); so_count := N.of_nat (length (scan (fst st')));
+         so_ix := map (fun p => ilookup_count p st') probes |}
+      :: model_steps probes st' rest
   end.
 
 Definition model_merge (b l r : mstate) : mobs :=
@@ -59,7 +62,7 @@ Definition model_merge (b l r : mstate) : mobs :=
      mo_conf := map (fun ce => (rowof (snd ce), (card (fst (fst (snd ce))), card (snd (fst (snd ce))), card (snd (snd ce))))) (km_conf M) |}.
 
 Definition model_obs (i : input) : obs :=
-  {| o_steps := model_steps [] (i_steps i);
+  {| o_steps := model_steps (i_probes i) ([], []) (i_steps i);
      o_lr := model_merge (i_b i) (i_l i) (i_r i);
      o_rl := model_merge (i_b i) (i_r i) (i_l i) |}.
 
@@ -71,10 +74,13 @@ Definition conf_same (a b : list (row * (N * N * N))) : bool :=
                     | Some (p, q, r), Some (p', q', r') => (p =? p') && (q =? q') && (r =? r')
                     | _, _ => false end) (map fst a ++ map fst b).
 
+Fixpoint listN_eqb (a b : list N) : bool :=
+  match a, b with [], [] => true | x :: a', y :: b' => (x =? y) && listN_eqb a' b' | _, _ => false end.
+
 Fixpoint steps_eqb (a b : list sobs) : bool :=
   match a, b with
   | [], [] => true
-  | x :: a', y :: b' => msame (so_state x) (so_state y) && (so_count x =? so_count y) && (so_ix x =? so_ix y) && steps_eqb a' b'
+  | x :: a', y :: b' => msame (so_state x) (so_state y) && (so_count x =? so_count y) && listN_eqb (so_ix x) (so_ix y) && steps_eqb a' b'
   | _, _ => false
   end.
 
@@ -102,6 +108,7 @@ Definition expected (prev : mstate) (st : stmt) (x : row) : N :=
       (if matches ci v x then 0 else mlookup x prev)
       + msum (filter (fun e => matches ci v (fst e) && row_eqb (set_nth cj w (fst e)) x) prev)
   | SDelL _ _ _ => mlookup x prev      (* not a function of the statement: see limit_ok *)
+  | SUpdL _ _ _ _ _ => mlookup x prev  (* see limit_upd_ok *)
   end.
 
 (* DELETE ... LIMIT n: which copies go is the engine's choice; as a multiset statement: no multiplicity
@@ -117,29 +124,50 @@ Definition touched (prev : mstate) (st : stmt) : list row :=
   | SIns r _ => [r]
   | SDel _ _ => []
   | SDelL _ _ _ => []
+  | SUpdL _ _ _ _ _ => []
   | SUpd _ _ cj w => map (fun e => set_nth cj w (fst e)) prev
   end.
+
+(* UPDATE ... LIMIT n.  A source row (matches, and the assignment changes it) can only lose copies;
+   what the sources lose arrives at their images; every other multiplicity is the old one plus the
+   arrivals; the LIMIT picks exactly min(n, matching) matching copies, of which the unchanged ones
+   (already holding the assigned value) do not move. *)
+Definition limit_upd_ok (prev new : mstate) (ci : nat) (v : cell) (cj : nat) (w : cell) (n : N) : bool :=
+  let source := fun x => matches ci v x && negb (row_eqb (set_nth cj w x) x) in
+  let out := fun x => mlookup x prev - mlookup x new in
+  let moved := msum (map (fun e => (fst e, out (fst e))) (filter (fun e => source (fst e)) prev)) in
+  let matching := msum (filter (fun e => matches ci v (fst e)) prev) in
+  let unchanged := msum (filter (fun e => matches ci v (fst e) && row_eqb (set_nth cj w (fst e)) (fst e)) prev) in
+  forallb (fun x =>
+     if source x then mlookup x new <=? mlookup x prev
+     else mlookup x new =? mlookup x prev
+            + msum (map (fun e => (fst e, out (fst e)))
+                        (filter (fun e => source (fst e) && row_eqb (set_nth cj w (fst e)) x) prev)))
+    (map fst prev ++ map fst new ++ map (fun e => set_nth cj w (fst e)) prev)
+  && (moved <=? N.min n matching) && (N.min n matching - unchanged <=? moved).
 
 Definition trans_ok (prev : mstate) (st : stmt) (new : mstate) : bool :=
   match st with
   | SDelL ci v n => limit_ok prev new ci v n
+  | SUpdL ci v cj w n => limit_upd_ok prev new ci v cj w n
   | _ => forallb (fun x => mlookup x new =? expected prev st x) (map fst prev ++ map fst new ++ touched prev st)
   end.
 
 Fixpoint nodup_rows (m : mstate) : bool :=
   match m with [] => true | (r, _) :: m' => negb (existsb (fun e => row_eqb (fst e) r) m') && nodup_rows m' end.
 
-Fixpoint steps_ok (prev : mstate) (steps : list (stmt * list op * cell)) (os : list sobs) : bool :=
+Fixpoint steps_ok (probes : list cell) (prev : mstate) (steps : list (stmt * list op)) (os : list sobs) : bool :=
   match steps, os with
   | [], [] => true
-  | (st, _, p) :: steps', o :: os' =>
+  | (st, _) :: steps', o :: os' =>
       let new := so_state o in
       nodup_rows new
       && forallb (fun e => 0 <? snd e) new
       && trans_ok prev st new
       && (so_count o =? msum new)                      (* COUNT( * ) and the scan reflect the multiplicities *)
-      && (so_ix o =? mprobe p new)                     (* so does the lookup through the secondary index *)
-      && steps_ok new steps' os'
+      && listN_eqb (so_ix o) (map (fun p => mprobe p new) probes)   (* so does every lookup through the secondary index,
+                                                                       for every value incl. NULL: same rows, same multiplicities as the scan *)
+      && steps_ok probes new steps' os'
   | _, _ => false
   end.
 
@@ -156,7 +184,7 @@ Definition merge_ok (b l r : mstate) (o : mobs) : bool :=
      (map fst b ++ map fst l ++ map fst r ++ map fst (mo_state o) ++ map fst (mo_conf o)).
 
 Definition oracle (i : input) (o : obs) : bool :=
-  steps_ok [] (i_steps i) (o_steps o)
+  steps_ok (i_probes i) [] (i_steps i) (o_steps o)
   && merge_ok (i_b i) (i_l i) (i_r i) (o_lr o)
   && merge_ok (i_b i) (i_r i) (i_l i) (o_rl o).
 
